@@ -82,7 +82,7 @@ def rule_registry(ctx):
     # ix toggles
     fi = P.lookup(P.cls(BASES + 'AbstractHasAxes'), 'ix').value['fget']
     for cur, want in (('position', 'label'), ('label', 'position'), (None, 'position')):
-        atom = ('cmp', '==', ('attr', SELF, '_indexing'), const('position'))
+        atom = T.mkcmp('==', ('attr', SELF, '_indexing'), const('position'))
         ev = run(ctx, fi, facts={atom: cur == 'position'})
         for p in ev.paths:
             kws = indexable_args(p.value) if p.kind == 'return' else None
@@ -142,7 +142,7 @@ def rule_locate_one(ctx):
     ctx.rule('R4', 'searchsorted preconditions', 3)
     fi = ctx.fn(IDX + 'locate_one')
     VALUES, VAL, TOL = P_('values'), P_('val'), P_('tol')
-    tol_none = ('cmp', 'is', TOL, T.CONST_NONE)
+    tol_none = T.mkcmp('is', TOL, T.CONST_NONE)
 
     def eq_match_set(t):
         """term contains values == val' with val' derived from val"""
@@ -298,7 +298,7 @@ def loc_oracle(kind, VAL):
             return kind == 'slice'
         if atom[0] == 'call' and T.call_name(atom) == 'isscalar' and atom[2] == (VAL,):
             return kind == 'scalar'
-        if atom == ('cmp', 'is', VAL, T.CONST_NONE):
+        if atom == T.mkcmp('is', VAL, T.CONST_NONE):
             return kind == 'none'
         if atom[0] == 'cmp' and atom[1] == '==' and atom[2] == ('attr', ('attr', VAL, 'dtype'), 'kind') and atom[3] == const('b'):
             return kind == 'bool'
@@ -400,7 +400,7 @@ def rule_loc(ctx):
         unguarded = not any(any(x[0] == 'cmp' and x[1] == '!=' for x in T.subterms(a)) for a, _ in p.guards)
         if unguarded:
             m = [(a, pol) for a, pol in p.guards if T.contains(a, MODE)]
-            if not (len(m) == 1 and m[0][0] == ('cmp', '==', MODE, const('clip')) and m[0][1] is True):
+            if not (len(m) == 1 and m[0][0] == T.mkcmp('==', MODE, const('clip')) and m[0][1] is True):
                 ctx.violated('R2', fi, 'return ' + T.show(p.value), "the mismatch check may only be skipped when mode == 'clip'",
                              node=p.node)
             else:
@@ -421,7 +421,7 @@ def class_const(P, cq, name):
 def getitem_oracle(bc):
     def oracle(atom, st):
         B = ('attr', SELF, '_broadcast')
-        if atom == ('cmp', 'is', B, T.CONST_NONE):
+        if atom == T.mkcmp('is', B, T.CONST_NONE):
             return bc == T.CONST_NONE
         if atom == B:
             return bool(bc[1])
